@@ -228,10 +228,35 @@ impl Core {
             // Add a node to our routing table on any expected incoming response.
 
             if let Some(id) = author_id {
-                self.routing_table.add(Node::new(id, from));
+                let node = Node::new(id, from);
+
+                for routing_table in [
+                    &mut self.routing_table,
+                    &mut self.signed_peers_routing_table,
+                ] {
+                    // The node at this address answered with another id than the one we know
+                    // it by, so it changed its id (for example after confirming its public
+                    // address, BEP_0042). Forget the old entry, otherwise the per IP limits
+                    // lock the new id out until the old entry, which can no longer be
+                    // refreshed, goes stale.
+                    let changed_id = routing_table
+                        .nodes()
+                        .find(|known| {
+                            known.same_address(&node)
+                                && known.id() != node.id()
+                                && (node.is_secure() || !known.is_secure())
+                        })
+                        .map(|known| *known.id());
+
+                    if let Some(old_id) = changed_id {
+                        routing_table.remove(&old_id);
+                    }
+                }
+
+                self.routing_table.add(node.clone());
 
                 if supports_signed_peers(message.version) {
-                    self.signed_peers_routing_table.add(Node::new(id, from));
+                    self.signed_peers_routing_table.add(node);
                 }
             }
         }
